@@ -21,7 +21,8 @@ A_COMMON = [
     'A-dataptr: DataPtr<T> method bodies (raw pointers, allocator) are outside Verus; their contracts over the ghost view cells(): Seq<Option<T>> '
     '(contracts/storage.vsp, transcribed from the # Safety sections) are assumed here and checked bounded by the Kani harnesses (thorough tier).',
     'A-alloc: allocation failure aborts; size_of::<T>() * 2^24 <= isize::MAX, so DataPtr allocation panics and Vec::push capacity overflow are unreachable.',
-    'A-gen: impls of ComponentsN / SlicesN / ViewN are generated code; their contracts (pack/unpack fields in order) are assumed at this level.',
+    'A-gen: in the storage units, impls of ComponentsN / SlicesN / ViewN are generated code and their contracts (pack/unpack fields in order) are assumed; '
+    'in the world / templates units they are the code section_archetype() generates for the schema and are verified against those contracts.',
     'A-N: results hold for the instantiated component counts N listed in coverage.units only (the macro is uniform in N, but no N is claimed that was not run).',
     'A-rustc: ownership, borrowing and Drop glue of safe code are as rustc defines them.',
     'R-rules: the verified text is /repo\'s text after the named mechanical rules of DESIGN.md section 3 (counts per run in coverage.extraction_rules_applied); '
@@ -32,6 +33,19 @@ TB_COMMON = ['Verus 0.2026.09.13 (rust_verify, vstd)', 'Z3 (bundled with Verus)'
              'gv/extract.py extraction rules (R-*)', 'contracts/prelude.rs (A-std specifications)', 'DataPtr contracts (A-dataptr)']
 
 
+A_WORLD = [
+    'A-quote: the generated archetype / world code is obtained by evaluating the generator functions of macros/src/generate/world.rs as text templates for ONE schema '
+    '(WorldS { #[archetype_id(7)] ArchA(CompX, CompY), ArchB(CompX, CompZ) }, opaque Clone component types) with gv/quoteinst.py; assumed: quote! interpolation / repetition '
+    'behave as documented, convert_case Pascal->snake is the usual conversion for these identifiers, the archetype ids are the ones DataWorld::new computes (7, 8; that rule is verified under C15). '
+    'Universality over world declarations is not claimed.',
+    'R-world: the instantiated text is verified after the named rules of gv/worldgen.py (R-tag marker types because `struct A { data: StorageN<A, ..> }` is a cyclic self-reference for Verus; '
+    'R-split of trait Archetype / World into acyclic layers with the default-method bodies verbatim; R-inherent; R-optmap; R-constpat; R-clone; R-priv; R-unchecked; R-implarg; R-bound). '
+    'Not extracted from the generated code: functions returning impl Iterator (iter, iter_mut, iter_created, iter_destroyed, EcsEventIterator), functions returning RefMut, Default impls, '
+    'the generic forwarding TryFrom<&Entity<A>> / TryFrom<&mut ..> impls of the hidden __WorldSelectTotal enum, the macro_rules wrappers.',
+    'A-std: core\'s reflexive `impl<T> From<T> for T` is the identity (axiom_into_reflexive in contracts/prelude.rs; used where generated code passes an already built Components struct through `impl Into<Components>`).',
+]
+
+
 def storage_jobs(cfg_ns, threads=4):
     return [Job('storage', c, n, build.build_storage_unit, threads=threads) for (c, n) in cfg_ns]
 
@@ -40,7 +54,42 @@ def template_jobs(cfgs, threads=4):
     return [Job('templates', c, 2, build.build_templates_unit, threads=threads) for c in cfgs]
 
 
+def world_jobs(cfgs, threads=4):
+    """the code ecs_world! generates for the schema + the traits it implements (R-quote, R-world), over Storage2"""
+    return [Job('world', c, 2, build.build_world_job, threads=threads) for c in cfgs]
+
+
+# properties whose obligations include the generated archetype / world layer
+WORLD_PROPS = ('C01', 'C02', 'C03', 'C04', 'C08', 'C09', 'C12', 'C13', 'C14', 'C17')
+
+
+# properties whose obligations include the instantiated query templates (the templates unit CONTAINS the world unit)
+TEMPLATE_PROPS = ('C01', 'C02', 'C03', 'C06', 'C07', 'C09')
+
+
 def jobs_for(prop, tier):
+    jobs = _jobs_for(prop, tier) + _world_for(prop, tier)
+    seen, out = set(), []
+    for j in jobs:
+        if j.name not in seen:
+            seen.add(j.name)
+            out.append(j)
+    return out
+
+
+def _world_for(prop, tier):
+    if prop == 'C19':
+        return (template_jobs([D, REW]) if tier == 'quick' else template_jobs(ALL_CFGS, threads=2))
+    if prop in TEMPLATE_PROPS:
+        return template_jobs([D]) if tier == 'quick' else template_jobs([D, R, DE, REW], threads=3)
+    if prop not in WORLD_PROPS:
+        return []
+    if tier == 'quick':
+        return world_jobs([DE] if prop == 'C17' else [D])
+    return world_jobs([DE, RE, DEW] if prop == 'C17' else [D, R, DE, REW], threads=3)
+
+
+def _jobs_for(prop, tier):
     quick = tier == 'quick'
     if prop == 'C07':
         if quick:
@@ -104,9 +153,14 @@ def meta_for(prop):
             m['assumptions'].append('Kani harness select_conversions_all_ids (one declared world) is a complete check of the generated Select* tables for THAT declaration only.')
     if prop in ('C06', 'C07', 'C09'):
         m['assumptions'] = list(A_COMMON) + [
-            'A-gen-arch: the generated archetype struct is a thin wrapper delegating 1:1 to StorageN; the template harnesses use a hand-written model of it (contracts/tmpl_schema.rs) whose delegations are compared textually with macros/src/generate/world.rs and src/traits.rs on every run (exit 2 when out of date). The archetype type parameter is a separate tag type (R-tmpl-tag).',
+            A_WORLD[0], A_WORLD[1],
             'R-tmpl: the ecs_iter!/ecs_iter_destroy! templates are instantiated for ONE schema (two archetypes over Storage2, parameters Entity<_>, EntityDirect<_>, &mut CompX); the user closure is an unspecified stand-in; universality over programs is not claimed.',
         ]
+    if prop in WORLD_PROPS or prop == 'C19':
+        for a in A_WORLD:
+            if a not in m['assumptions']:
+                m['assumptions'].append(a)
+        m['trusted_base'] = list(m['trusted_base']) + ['gv/quoteinst.py + gv/worldgen.py (R-quote, R-world)']
     if prop == 'C19':
         m['all_props'] = True
     return m
